@@ -20,6 +20,11 @@ interface `ScanI` (`ofView`: `impl Scan for P: Pe`, both formats, file and mappe
   Outside the fragment the statement is FALSE of the implementation: `C11_deviation_*`.
 * **T3** `C11_pattern_string_semantics_partial` — the two composed; `C11_save_len_covers_written` — the
   advertised `save_len` covers every slot the pattern writes (no fragment restriction).
+
+Continued in `Thm/C11Frame.lean`: the frame lemma of the interpreter (`C11_exec_writes_only_named_slots`, hence
+`C11_save_len_covers_every_written_slot` for every pattern string that parses — on the implementation side,
+not only for the documented captures), the bridge from parser output to the hypotheses of the C10 theorems, and
+sanity lemmas about which image bytes the reference semantics constrains.
 -/
 namespace Pelite.PatSem
 open Pelite.Pattern Pelite.Exec
